@@ -21,7 +21,7 @@ CONSTANTS CidStates,     \* subset of {"valid", "rejected", "missing"}
           FileKinds,     \* subset of the kinds below
           MaxFiles,
           Headers,       \* values of the CID's Header property: subset of 0..2 (rows that are neither validated nor returned)
-          Untils,        \* subset of {"absent", "all", "0", "k2", "k9", "huge"}  ("all" = -1; "huge" = 2^63, beyond every file and
+          Untils,        \* subset of {"absent", "all", "0", "k1", "k2", "k4", "k9", "huge"}  ("all" = -1; "huge" = 2^63, beyond every file and
                          \* beyond what a C long holds)
           ArgStates,     \* subset of {"ok", "none", "unknownOption", "untilTooSmall", "untilNotNumber", "badLogLevel",
                          \*            "untilWithoutValue", "pluginsWithoutValue", "optionBetweenCidAndData"}
@@ -32,11 +32,13 @@ CONSTANTS CidStates,     \* subset of {"valid", "rejected", "missing"}
                          \* is a function of CID, files and limit alone (the replay is what checks that)
 
 \* first offending row of each kind of file (0 = none); "shares" has the same keys as its sibling "accepted" file
-\* ("lateDamage": the container itself is malformed at row 4 -- delimited text the csv reader refuses there)
+\* ("lateDamage": the container itself is malformed at row 4 -- delimited text the csv reader refuses there;
+\* "endRejected": five rows every one of which is accepted, but the fourth brings the fourth distinct name and the CID's
+\* DistinctCount check allows three -- the file is rejected at the END of the validation iff four rows reached the check)
 BadAt(kind) == CASE kind = "accepted" -> 0 [] kind = "shares" -> 0 [] kind = "fieldRejected" -> 2 [] kind = "dupRejected" -> 3
-                 [] kind = "lateDamage" -> 4 [] OTHER -> 0
+                 [] kind = "lateDamage" -> 4 [] kind = "endRejected" -> 4 [] OTHER -> 0
 Unreadable(kind) == kind \in {"missing", "directory"}
-Limit(u) == CASE u = "absent" -> -1 [] u = "all" -> -1 [] u = "0" -> 0 [] u = "k1" -> 1 [] u = "k2" -> 2 [] u = "k9" -> 9 [] u = "huge" -> 99
+Limit(u) == CASE u = "absent" -> -1 [] u = "all" -> -1 [] u = "0" -> 0 [] u = "k1" -> 1 [] u = "k2" -> 2 [] u = "k4" -> 4 [] u = "k9" -> 9 [] u = "huge" -> 99
 \* With h header rows: a row that offends a field or a check is reported iff it is a data row and its number is at most the limit
 \* (Session.tla, LimitBoundary). A container that is malformed in row r is another matter: the limit N makes the validate-only
 \* API (and the command line) stop after N data rows, i.e. after h + N rows of the container -- the damage is met iff it lies
